@@ -396,11 +396,12 @@ def stepCore (vm : Vm) (op : Op) : Except Err Vm :=
       .ok (vm.setStack (out.reverse ++ vm.stack.drop 12))
   | .mpverify =>
     match vm.stack with
-    | v0 :: v1 :: v2 :: v3 :: _d :: i :: r0 :: r1 :: r2 :: r3 :: _ =>
+    | v0 :: v1 :: v2 :: v3 :: d :: i :: r0 :: r1 :: r2 :: r3 :: _ =>
       match vm.paths with
       | [] => .error .hostNoPath
       | path :: rest =>
-        if path.isEmpty ∨ i / 2 ^ path.length ≠ 0 then .error .hostPanic
+        if path.length ≠ d then .error .merklePathFailed
+        else if path.isEmpty ∨ i / 2 ^ path.length ≠ 0 then .error .hostPanic
         else
           let root := merkleRoot [v3, v2, v1, v0] path i
           if root = [r3, r2, r1, r0] then .ok { vm with paths := rest }
